@@ -7,6 +7,7 @@ require (
 	github.com/IrineSistiana/mosproxy v0.0.0
 	github.com/maypok86/otter v1.2.0
 	github.com/panjf2000/gnet/v2 v2.3.6
+	github.com/quic-go/quic-go v0.42.0
 	github.com/rs/zerolog v1.32.0
 	golang.org/x/net v0.22.0
 )
@@ -28,7 +29,6 @@ require (
 	github.com/prometheus/procfs v0.13.0 // indirect
 	github.com/puzpuzpuz/xsync/v3 v3.1.0 // indirect
 	github.com/quic-go/qpack v0.4.0 // indirect
-	github.com/quic-go/quic-go v0.42.0 // indirect
 	github.com/redis/rueidis v1.0.32 // indirect
 	github.com/spf13/cobra v1.8.0 // indirect
 	github.com/spf13/pflag v1.0.5 // indirect
@@ -50,3 +50,5 @@ require (
 replace github.com/IrineSistiana/mosproxy => /repo
 
 replace github.com/IrineSistiana/connpool => ./third_party/connpool
+
+replace github.com/quic-go/quic-go => ../.build/quic-go
